@@ -268,9 +268,16 @@ Fixpoint z_digits (fuel : nat) (z : Z) (acc : bytes) : bytes :=
 
 Definition dec_string (z : Z) : bytes := z_digits 25 z [].
 
+(* last step of [shortest]: position of the decimal point (carry: c = 10^k), trailing zeros stripped, re-check *)
+Definition finish (babs n0 c k : Z) : option (bytes * Z) :=
+  let n := n0 + (Z.of_nat (length (dec_string c)) - k) in
+  let c' := strip_zeros 20 c in
+  let digs := dec_string c' in
+  if roundtrips babs c' (n - Z.of_nat (length digs)) then Some (digs, n) else None.
+
 (* (digits, n): value = 0.digits * 10^n, digits without trailing zeros.  The stripped digit string is checked
    once more to parse back to the same double (None otherwise; never observed). *)
-Definition shortest (babs m e expf : Z) : option (bytes * Z) :=
+Definition shortest_search (babs m e expf : Z) : option (Z * Z * Z) :=
   let xn := if 0 <=? e then m * 2 ^ e else m in
   let xd := if 0 <=? e then 1 else 2 ^ (- e) in
   let n0 := dec_exp xn xd in
@@ -281,11 +288,13 @@ Definition shortest (babs m e expf : Z) : option (bytes * Z) :=
   let highM := 4 * m + 2 in
   match search ks17 babs (Z.even m) (4 * m * yd) (yn * lowM) (yn * highM) n0 (yn / yd) (yn mod yd) yd with
   | None => None
-  | Some (c, k) =>
-    let n := n0 + (Z.of_nat (length (dec_string c)) - k) in      (* carry: c = 10^k *)
-    let c' := strip_zeros 20 c in
-    let digs := dec_string c' in
-    if roundtrips babs c' (n - Z.of_nat (length digs)) then Some (digs, n) else None
+  | Some (c, k) => Some (n0, c, k)
+  end.
+
+Definition shortest (babs m e expf : Z) : option (bytes * Z) :=
+  match shortest_search babs m e expf with
+  | None => None
+  | Some (n0, c, k) => finish babs n0 c k
   end.
 
 (* ---------- ES6 layout ---------- *)
